@@ -22,7 +22,7 @@ type refOrder struct {
 	name  string
 	sys   semver.System
 	gen   func(*rand.Rand) string
-	valid func(ss []string) ([]string, error)      // normal form or "E"
+	valid func(ss []string) ([]string, error)       // normal form or "E"
 	cmp   func(pairs [][2]string) ([]string, error) // "-1","0","1" or "E"
 	self  func() (string, error)
 	// normalised reports whether the reference's normal form is a version
